@@ -3,7 +3,10 @@
 /tmp/seed/<ID>/out into /verif/seeded/<ID>/ (patch.diff, demonstration, notes, meta.json)."""
 import sys, os, json, shutil, glob, subprocess
 sid, prop, needs = sys.argv[1], sys.argv[2], sys.argv[3]
-src = '/tmp/seed/%s/out' % sid
+root = os.environ.get('SEEDROOT', '/tmp/seed')
+suffix = os.environ.get('SEEDSUFFIX', '')
+src = '%s/%s/out' % (root, sid)
+sid = sid + suffix
 dst = '/verif/seeded/%s' % sid
 os.makedirs(dst, exist_ok=True)
 for f in glob.glob(src + '/*') + glob.glob(src + '/demo/*'):
